@@ -76,7 +76,9 @@ static void run_shape(std::vector<unsigned> shape, std::vector<bool> mask, bool 
       // the constructors take top-cell counts per direction; from-vertices wants vertex counts
       try {
         if (periodic) { Bitmap_cubical_complex<Bitmap_cubical_complex_periodic_boundary_conditions_base<double>> cc(dims, in, P, (bool)top); check(cc, in, top, tag); }
-        else { Bitmap_cubical_complex<Bitmap_cubical_complex_base<double>> cc(dims, in, (bool)top); check(cc, in, top, tag); }
+        else { Bitmap_cubical_complex<Bitmap_cubical_complex_base<double>> cc(dims, in, (bool)top); check(cc, in, top, tag);
+          // the same complex through the 4-argument (compatibility) constructor that generic code over both classes uses
+          Bitmap_cubical_complex<Bitmap_cubical_complex_base<double>> c4(dims, in, std::vector<bool>(Dm, false), (bool)top); check(c4, in, top, tag + " (4-argument constructor)"); }
       } catch (std::exception const& e) { ++total_cases; fail(tag + ": exception " + e.what()); } } } }
 int main(int argc, char** argv) {
   signal(SIGSEGV, on_crash); signal(SIGABRT, on_crash); signal(SIGBUS, on_crash); signal(SIGFPE, on_crash);
